@@ -69,6 +69,35 @@ func runC05(cx *ctx) {
 			})
 		}
 	}
+	// armored files: every residue of the binary length modulo the 48-byte armor line, all recipient types
+	for kind := 0; kind < 4; kind++ {
+		base := r.Intn(200)
+		for d := 0; d < cx.n(48, 192); d++ {
+			kind, n := kind, base+d
+			rr := r.Fork()
+			cx.ru.Do(func() *h.Case {
+				p := mkParty(rr, kind)
+				pt := rr.Bytes(n)
+				tape := rr.Bytes(200)
+				text, err, _ := realEncryptFile(tape, []age.Recipient{p.rec}, segment(rr, pt), true)
+				if err != nil {
+					return &h.Case{Kind: "armored-" + p.label, Impl: "encrypt-failed", Oracle: "armored Encrypt failed: " + err.Error()}
+				}
+				reply := cx.ask(fmt.Sprintf("fencfull %s %s %s", h.Hex(tape), p.recD, h.Hex(pt)))
+				if len(reply) < 3 || reply[:3] != "ok " {
+					return &h.Case{Kind: "armored-" + p.label, Impl: "model-failed", Oracle: "the reference encoder failed: " + trunc(reply)}
+				}
+				c := &h.Case{Kind: "armored-" + p.label, Line: "aenc " + reply[3:], Impl: h.Sum(text), NonTrivial: true,
+					Note: fmt.Sprintf("armored, %s pt=%d text=%d", p.label, n, len(text))}
+				c.SpecIsOracle = "the independent reference implementation does not reproduce the armored file the library writes from the same random values"
+				out, class, _ := realDecryptFile(text, []age.Identity{p.id}, true)
+				if class != "ok eof" || !bytes.Equal(out, pt) {
+					c.Oracle = fmt.Sprintf("the library does not decrypt its own armored file: %s, %d bytes", class, len(out))
+				}
+				return c
+			})
+		}
+	}
 	// the 114 CCTV vectors with their recorded expectations: Go must meet them and the Lean reference must agree with Go
 	for _, v := range loadVectors() {
 		v := v
